@@ -14,7 +14,7 @@ RULE = ('fuzz: atheris / libFuzzer campaigns (16 shards x fixed run count, seeds
         'src/saml2_tophat/**/*.py, enumerated exhaustively by ast; sweep: entry points discovered by introspection (ELEMENT_FROM_STRING of every schema module, '
         'create_class_from_xml_string, extension_element_from_string, soap.*, pack.parse_soap_enveloped_saml, InMemoryMetaData.parse, MetadataStore.load, Entity.unravel, '
         'Saml2Client.parse_authn_request_response, Server.parse_authn_request / parse_logout_request, SecurityContext.correctly_signed_*) x payload families '
-        '(internal general entity in text / attribute, parameter entity, external SYSTEM / PUBLIC entity on a canary file and a closed port, nested-entity bomb, external DTD, '
+        '(internal general entity in text / attribute, parameter entity, external SYSTEM / PUBLIC entity on a canary file and a closed port, nested-entity bomb, attribute default declared in the internal DTD subset, external DTD, '
         'XInclude, xml-stylesheet PI, UTF-16 LE/BE with BOM with and without entity, declared-encoding mismatch, truncation at structural boundaries, non-XML). '
         'Non-trivial = payload declares an entity / external reference or is a proper truncation; distinct = (entry point, payload).')
 ASSUMPTIONS = ['sys.addaudithook events open / socket.* / urllib.Request / subprocess.Popen observe every file and network access of CPython code',
@@ -151,7 +151,7 @@ def _split(doc):
     return decl, root_start, rest
 
 
-def payloads(doc, tier):
+def payloads(doc, tier, only_dtd=False):
     """[(family, bytes, kind)] kind: 'entity' (must be refused), 'external' (no access; any result), 'malformed' (must be refused), 'benign' (may parse)"""
     decl, start, rest = _split(doc)
     root = start[1:].split()[0].rstrip('>')
@@ -160,6 +160,7 @@ def payloads(doc, tier):
     X = '<?xml version="1.0" encoding="UTF-8"?>'
     out.append(('internal-entity-text', '%s<!DOCTYPE %s [<!ENTITY x "%s">]>%s&x;%s' % (X, root, TOKEN, start, rest), 'entity'))
     out.append(('internal-entity-attribute', '%s<!DOCTYPE %s [<!ENTITY x "%s">]>%s%s' % (X, root, TOKEN, start[:-1] + ' verifattr="&x;">', rest), 'entity'))
+    # DTD content other than entities: an attribute default declared in the internal subset must not surface in the parsed object ("DTD content")
     out.append(('entity-declared-unused', '%s<!DOCTYPE %s [<!ENTITY x "%s">]>%s%s' % (X, root, TOKEN, start, rest), 'entity'))
     out.append(('parameter-entity', '%s<!DOCTYPE %s [<!ENTITY %% p "<!ENTITY x \'%s\'>"> %%p;]>%s&x;%s' % (X, root, TOKEN, start, rest), 'entity'))
     out.append(('external-system-entity-file', '%s<!DOCTYPE %s [<!ENTITY x SYSTEM "file://%s">]>%s&x;%s' % (X, root, can, start, rest), 'entity'))
@@ -189,6 +190,9 @@ def payloads(doc, tier):
     for c in cuts:
         if 0 < c < len(body) - 1:
             out.append(('truncated@%d' % c, X + body[:c], 'malformed'))
+    if only_dtd:
+        # judged in a part of its own (open known finding C11-dtd-attribute-defaults-applied), so that excluding it does not hide the other families
+        out = [('internal-dtd-attribute-default', '%s<!DOCTYPE %s [<!ATTLIST %s verifattr CDATA "%s">]>%s%s' % (X, root, root, TOKEN, start, rest), 'dtd')]
     res = []
     for fam, data, kind in out:
         res.append((fam, data if isinstance(data, bytes) else data.encode('utf-8'), kind))
@@ -234,8 +238,10 @@ def judge(entry, fam, kind, outcome):
     if ev:
         raise Violation('external-access', '%s with payload %s caused %r' % (entry, fam, ev[:3]))
     returned = status == 'ok' and val is not None and val != '' and val != b'' and val != {} and val != []
-    if returned and contains_token(val):
+    if returned and kind != 'dtd' and contains_token(val):
         raise Violation('entity-expanded', '%s with payload %s returned an object containing the entity replacement text' % (entry, fam))
+    if kind == 'dtd' and returned and contains_token(val):
+        raise Violation('dtd-default-applied', '%s with payload %s returned an object carrying an attribute value that only the document\'s DTD declares' % (entry, fam))
     if kind == 'entity' and returned:
         raise Violation('entity-document-accepted', '%s accepted a document that declares an entity (payload %s): %r' % (entry, fam, type(val).__name__))
     if kind == 'malformed' and returned:
@@ -444,6 +450,28 @@ def run_other(case, tier='quick'):
     return '+'.join(sorted(labs)), True
 
 
+def dtd_cases():
+    return [{'entry': 'schema', 'cls': cn, 'how': how} for cn, how in schema_entries() if how == 'from_string'] + [{'entry': n} for n in OTHER_NAMES]
+
+
+def run_dtd(case):
+    """the one payload family that is an open known finding: an attribute default declared in the internal DTD subset"""
+    if case['entry'] == 'schema':
+        from harness import schema_gen as G
+        cls = G.classes()[case['cls']]
+        doc = G.build(G.full_spec(case['cls'], 1, 0)).to_string()
+        f = sys.modules[cls.__module__].ELEMENT_FROM_STRING[cls.c_tag]
+        call, name = (lambda data: f(data)), 'from_string(%s)' % case['cls']
+        doc = doc.decode('utf-8') if isinstance(doc, bytes) else doc
+    else:
+        doc, call = other_entries()[case['entry']]
+        name = case['entry']
+    labs = set()
+    for fam, data, kind in payloads(doc, 'quick', only_dtd=True):
+        labs.add(judge(name, fam, kind, monitor(lambda: call(data))))
+    return '+'.join(sorted(labs)), True
+
+
 def fuzz_cases(tier, seed_base=1):
     n = 16
     runs = 30000 if tier == 'quick' else 3000000
@@ -499,10 +527,17 @@ def run_fuzz(case):
     return 'fuzz-campaign', True
 
 
+def known_match(part, case, v):
+    if v.bucket == 'dtd-default-applied':
+        return 'C11-dtd-attribute-defaults-applied'
+    return None
+
+
 def parts(tier):
     return [
         Part('inventory', run_inventory, cases=inventory_cases, exhaustive=True),
         Part('schema-entry-points', lambda c: run_schema(c, tier), cases=sweep_cases_schema, exhaustive=True),
         Part('other-entry-points', lambda c: run_other(c, tier), cases=lambda: other_cases(tier), exhaustive=True),
+        Part('dtd-attribute-defaults', run_dtd, cases=dtd_cases, exhaustive=True),
         Part('fuzz', run_fuzz, cases=lambda: fuzz_cases(tier)),
     ]
